@@ -230,6 +230,46 @@ func c01Kind(x *runCtx, ctx context.Context, r *rand.Rand, k lab.Kind, enc proto
 			resignProof(p, "own2", true)
 			return true
 		}},
+		// the voucher presented without its entries: an empty chain designates the manufacturer key and nobody else
+		{what: "no-entries-resigned-by-stranger-key-swapped", proof: func(p *proofTag) bool {
+			p.Payload.Val.NumOVEntries = 0
+			resignProof(p, "own3", true)
+			return true
+		}, withheld: true},
+		{what: "no-entries-resigned-by-current-owner", proof: func(p *proofTag) bool {
+			p.Payload.Val.NumOVEntries = 0
+			resignProof(p, "own1", false)
+			return true
+		}, withheld: true},
+		{what: "no-entries-resigned-by-device-key-swapped", proof: func(p *proofTag) bool {
+			p.Payload.Val.NumOVEntries = 0
+			resignProof(p, "dev1", true)
+			return true
+		}, withheld: true},
+		{what: "no-entries-manufacturer-as-owner", proof: func(p *proofTag) bool {
+			p.Payload.Val.NumOVEntries = 0
+			resignProof(p, "mfg", true)
+			return true
+		}},
+		// two cooperating alterations (after the honest run above, in the same process): the last entry names a stranger's key but
+		// keeps the genuine entry's signature bytes, and the stranger signs 61 and advertises its key
+		{what: "last-entry-key-replaced-signature-kept-61-resigned-by-that-key", proof: func(p *proofTag) bool { resignProof(p, "own3", true); return true },
+			entry: func(i int, e *fdo.VerifOVEntry) bool {
+				if i != 1 {
+					return false
+				}
+				pk, _ := lab.PublicKey(k, k.PoolKey+"/own3", e.OVEntry.Payload.Val.PublicKey.Encoding)
+				e.OVEntry.Payload.Val.PublicKey = *pk
+				return true
+			}, withheld: true},
+		{what: "first-entry-key-replaced-signature-kept", entry: func(i int, e *fdo.VerifOVEntry) bool {
+			if i != 0 {
+				return false
+			}
+			pk, _ := lab.PublicKey(k, k.PoolKey+"/own3", e.OVEntry.Payload.Val.PublicKey.Encoding)
+			e.OVEntry.Payload.Val.PublicKey = *pk
+			return true
+		}, withheld: true},
 		// (c) vouchers of other devices / manufacturers, consistently signed by the genuine owner key
 		{what: "voucher-of-other-device-same-owner", proof: spliceVoucher(env.bOV), entry: serve(env.bOV), withheld: true},
 		{what: "voucher-of-other-manufacturer", proof: spliceVoucher(cOV), entry: serve(cOV), withheld: true},
